@@ -188,6 +188,24 @@ namespace Dune
      */
     ArrayList();
 
+    /**
+     * @brief Copy constructor.
+     *
+     * Copies the entries (the chunks are not shared with other).
+     */
+    ArrayList(const ArrayList& other);
+
+    /**
+     * @brief Copy assignment.
+     *
+     * Copies the entries (the chunks are not shared with other).
+     */
+    ArrayList& operator=(const ArrayList& other);
+
+    ArrayList(ArrayList&& other) = default;
+
+    ArrayList& operator=(ArrayList&& other) = default;
+
   private:
 
     /**
@@ -459,6 +477,28 @@ namespace Dune
     : capacity_(0), size_(0), start_(0)
   {
     chunks_.reserve(100);
+  }
+
+  template<class T, int N, class A>
+  ArrayList<T,N,A>::ArrayList(const ArrayList& other)
+    : capacity_(other.capacity_), size_(other.size_), start_(other.start_)
+  {
+    chunks_.reserve(other.chunks_.capacity());
+    for(const auto& chunk : other.chunks_)
+      if(chunk)
+        chunks_.push_back(std::make_shared<std::array<MemberType,chunkSize_> >(*chunk));
+      else
+        chunks_.push_back(nullptr);
+  }
+
+  template<class T, int N, class A>
+  ArrayList<T,N,A>& ArrayList<T,N,A>::operator=(const ArrayList& other)
+  {
+    if(this != &other) {
+      ArrayList copy(other);
+      *this = std::move(copy);
+    }
+    return *this;
   }
 
   template<class T, int N, class A>
